@@ -17,6 +17,15 @@ names        : every case (both directions, also through the pipeline) is run a 
                'status', 'result', 'data', 'OK', 'KO', 'total', '_result', '_test_name', the empty string); judged by
                the same TLC output with the names mapped / by StatsTrace on the real names (keys get /colliding-names
                when the same case on ordinary names does not show the same class).
+containers   : every case (both directions, also through the pipeline; one random input in three) is run a third time with its
+               environment sections, the collection of sections, the result lists and the label dictionaries built from other
+               concrete types with the same content (defaultdict(list) / defaultdict(dict) / OrderedDict / a dict subclass with
+               __missing__ / MappingProxyType; tuple / a list subclass; through the pipeline an Env based on a dictionary whose
+               sections have these types), in rotation; judged by the same TLC output / by StatsTrace (keys get /container-type
+               when the same case on plain dicts and lists does not show the same class).  The keys of every mapping and the lengths
+               of every sequence handed in are snapshotted before the evaluation and after the reading: a difference is part of the
+               violation text and of the replay detail; the same test is then evaluated a second time on the same inputs and that
+               observation is judged too (/second-evaluation); inputs changed with both summaries right is drift.
 code -> spec : seeded random bigger inputs (<= 8 tasks, <= 4 results each, 3 label names x 3 values, selections
                of 1-3 labels) are evaluated by the real classes, the projection recorded as JSON and the batch
                validated by TLC against StatsTrace.tla.
@@ -69,13 +78,123 @@ def stubs():
 def build_task_results(case):
     from valjean.cosette.task import TaskStatus
     st = stubs()
+    plan = case.get('containers')
     out = []
-    for t in case['tasks']:
+    for i, t in enumerate(case['tasks']):
         env = {'status': TaskStatus[t['status']]}
         if t['hasResult']:
-            env['result'] = [st['StubTest'](name=r['name'], labels=dict(r['labels'], **r.get('reserved', {})), verdict=bool(r['ok'])).evaluate()
-                             for r in t['results']]
-        out.append((t['name'], env))
+            env['result'] = typed_seq(plan['results'][i] if plan else 'list', [
+                st['StubTest'](name=r['name'], verdict=bool(r['ok']),
+                               labels=typed_map(plan['labels'][i][j] if plan else 'dict', dict(r['labels'], **r.get('reserved', {}))))
+                .evaluate() for j, r in enumerate(t['results'])])
+        out.append((t['name'], typed_map(plan['sections'][i] if plan else 'dict', env)))
+    return typed_seq(plan['outer'] if plan else 'list', out)
+
+
+# ---------------------------------------------------------------------------------------------
+# concrete types of the mappings / sequences handed in
+#
+# Stats.tla is about the CONTENT of the task environments (which task has which status / which results with which verdict and
+# labels): the statement quantifies over "all collections of task environments, all lists of results, label dictionaries", not
+# over one concrete Python type.  Every case is therefore ALSO built from other concrete types with the same content, in rotation:
+# the environment sections as defaultdict(list) / defaultdict(dict) / OrderedDict / a dict subclass whose __missing__ creates the
+# key / a read-only MappingProxyType / dict; the collection of sections as list / tuple (the pipeline hands a tuple); the result
+# lists as list / tuple / a list subclass; the label dictionaries like the sections.  Only re-iterable sequences (the documented
+# inputs are lists) and types the unchanged implementation's documented operations accept.  The abstract content, and so what
+# TLC expects, is the same; the KEYS of every mapping and the lengths of every sequence handed in are snapshotted before the
+# evaluation and after the summary has been read (inputs_changed in the observation and in the replay detail); when they changed,
+# the summary is evaluated a second time on the same inputs and that observation is judged by TLC too (/second-evaluation).
+
+SECTION_TYPES = ['defaultdict(list)', 'OrderedDict', 'missing-dict', 'dict', 'defaultdict(dict)', 'MappingProxyType']
+LABEL_TYPES = ['OrderedDict', 'defaultdict(list)', 'dict', 'missing-dict', 'MappingProxyType', 'defaultdict(dict)']
+SEQ_TYPES = ['tuple', 'list', 'list-subclass']
+OUTER_TYPES = ['tuple', 'list']
+N_CONTAINERS = 36
+CONT = '/container-type'
+REEVAL = '/second-evaluation'
+_TYPES = {}
+
+
+def _types():
+    if not _TYPES:
+        class MissingDict(dict):
+            """A dict subclass that creates a missing key on lookup (autovivification)."""
+            def __missing__(self, key):
+                value = self[key] = type(self)()
+                return value
+
+            def copy(self):
+                return type(self)(self)
+
+        class ResultList(list):
+            """A list subclass."""
+
+        _TYPES.update(MissingDict=MissingDict, ResultList=ResultList)
+    return _TYPES
+
+
+def typed_map(kind, content):
+    import collections
+    import types
+    if kind == 'dict':
+        return dict(content)
+    if kind == 'defaultdict(list)':
+        return collections.defaultdict(list, content)
+    if kind == 'defaultdict(dict)':
+        return collections.defaultdict(dict, content)
+    if kind == 'OrderedDict':
+        return collections.OrderedDict(content)
+    if kind == 'missing-dict':
+        return _types()['MissingDict'](content)
+    if kind == 'MappingProxyType':
+        return types.MappingProxyType(dict(content))
+    raise tlc.MachineryError('unknown mapping type %r in a case' % (kind,))
+
+
+def typed_seq(kind, items):
+    if kind == 'list':
+        return list(items)
+    if kind == 'tuple':
+        return tuple(items)
+    if kind == 'list-subclass':
+        return _types()['ResultList'](items)
+    raise tlc.MachineryError('unknown sequence type %r in a case' % (kind,))
+
+
+def with_containers(case, k):
+    """The same case with the k-th assignment of concrete types (rotating over the tasks and the results of a task)."""
+    k %= N_CONTAINERS
+    plan = dict(outer=OUTER_TYPES[k % len(OUTER_TYPES)],
+                sections=[SECTION_TYPES[(k + i) % len(SECTION_TYPES)] for i, _ in enumerate(case['tasks'])],
+                results=[SEQ_TYPES[(k // 2 + i) % len(SEQ_TYPES)] for i, _ in enumerate(case['tasks'])],
+                labels=[[LABEL_TYPES[(k // 3 + i + j) % len(LABEL_TYPES)] for j, _ in enumerate(t['results'])]
+                        for i, t in enumerate(case['tasks'])])
+    return dict(case, containers=plan)
+
+
+def snapshot(pairs):
+    """Keys of every mapping and length of every sequence reachable from the (name, section) pairs, read without item lookup
+    (keys() / get() / len() create nothing in a defaultdict or a dict with __missing__)."""
+    snap = [('the collection of task environments (%s)' % type(pairs).__name__, ['%d items' % len(pairs)])]
+    for i, (name, sec) in enumerate(pairs):
+        where = 'task %d %r' % (i, name)
+        snap.append(('environment section of %s (%s)' % (where, type(sec).__name__), sorted(repr(k) for k in sec.keys())))
+        results = sec.get('result')
+        if isinstance(results, (list, tuple)):
+            snap.append(('result list of %s (%s)' % (where, type(results).__name__), ['%d items' % len(results)]))
+            for j, r in enumerate(results):
+                labels = getattr(getattr(r, 'test', None), 'labels', None)
+                if hasattr(labels, 'keys'):
+                    snap.append(('labels of result %d of %s (%s)' % (j, where, type(labels).__name__), sorted(repr(k) for k in labels.keys())))
+    return snap
+
+
+def snapshot_diff(before, after):
+    """Readable list of what differs between two snapshots of the inputs (empty: nothing)."""
+    bef, aft = dict(before), dict(after)
+    out = ['%s: %s -> %s' % (what, ', '.join(keys), ', '.join(aft[what]) if what in aft else 'gone')
+           for what, keys in before if aft.get(what) != keys]
+    out += ['%s: appeared with %s' % (what, ', '.join(keys)) for what, keys in after if what not in bef]
     return out
 
 
@@ -175,17 +294,42 @@ def project_twice(case, res):
     return obs
 
 
-def observe(case):
+def _failed(ex):
     from valjean.gavroche.diagnostics.stats import TestStatsTestsByLabelsException
-    task_results = build_task_results(case)
+    if isinstance(ex, TestStatsTestsByLabelsException):
+        return dict(raised=False, exc=str(ex), error=True, classify=[], success=False, rows=[], missing=0, oracles=[])
+    return dict(raised=True, exc='%s: %s' % (type(ex).__name__, ex), error=False, classify=[], success=False, rows=[],
+                missing=0, oracles=[])
+
+
+def _snapshot(pairs):
     try:
-        res = make_test(case, task_results).evaluate()
-        obs = project_twice(case, res)
-    except TestStatsTestsByLabelsException as ex:
-        obs = dict(raised=False, exc=str(ex), error=True, classify=[], success=False, rows=[], missing=0, oracles=[])
+        return snapshot(pairs)
     except Exception as ex:   # pylint: disable=broad-except
-        obs = dict(raised=True, exc='%s: %s' % (type(ex).__name__, ex), error=False, classify=[], success=False, rows=[],
-                   missing=0, oracles=[])
+        return [('snapshot of the inputs', ['%s: %s' % (type(ex).__name__, ex)])]
+
+
+def observe(case):
+    task_results = build_task_results(case)
+    before = _snapshot(task_results)
+    test = None
+    try:
+        test = make_test(case, task_results)
+        res = test.evaluate()
+        obs = project_twice(case, res)
+    except Exception as ex:   # pylint: disable=broad-except
+        obs = _failed(ex)
+    # the inputs after the summary has been evaluated and read: an inserted / removed key, a longer / shorter sequence
+    obs['inputs_changed'] = snapshot_diff(before, _snapshot(task_results))
+    obs['reeval'] = None
+    if obs['inputs_changed'] and test is not None:
+        # the summary changed what it was given: the same test object, evaluated again on the same inputs, is judged like the first
+        try:
+            second = project(case, test.evaluate())
+        except Exception as ex:   # pylint: disable=broad-except
+            second = _failed(ex)
+        if any(second[k] != obs[k] for k in OBS_FIELDS):
+            obs['reeval'] = second
     return obs
 
 
@@ -200,13 +344,16 @@ def observe_pipeline(case):
     from valjean.gavroche.test import TestResultFailed
     st = stubs()
     Use._CACHE.clear() if hasattr(Use, '_CACHE') else None   # pylint: disable=protected-access,expression-not-assigned
+    plan = case.get('containers')
     tasks = []
-    for t in case['tasks']:
-        def body(t=t):
+    for i, t in enumerate(case['tasks']):
+        def body(t=t, i=i):
             upd = {}
             if t['hasResult']:
-                upd['result'] = [st['StubTest'](name=r['name'], labels=dict(r['labels']), verdict=bool(r['ok'])).evaluate()
-                                 for r in t['results']]
+                upd['result'] = typed_seq(plan['results'][i] if plan else 'list', [
+                    st['StubTest'](name=r['name'], verdict=bool(r['ok']),
+                                   labels=typed_map(plan['labels'][i][j] if plan else 'dict', dict(r['labels']))).evaluate()
+                    for j, r in enumerate(t['results'])])
             return {t['name']: upd}, TaskStatus[t['status']]
         tasks.append(PythonTask(t['name'], body))
     uniq = 'summary%d' % observe_pipeline.counter
@@ -218,17 +365,36 @@ def observe_pipeline(case):
     else:
         final = stats.test_stats_by_labels(name=uniq, tasks=tasks, by_labels=tuple(case['sel']))
     create = next(iter(final.depends_on))
-    env, config = Env(), Config()
-    for task in tasks + [create, final]:
+    if plan:
+        # an environment based on an existing dictionary (Env(dictionary)) whose sections are of the planned types: the tasks'
+        # updates are merged into them (a section has to be mutable here: the read-only type is replaced by a dict)
+        env = Env(typed_map('OrderedDict' if plan['outer'] == 'tuple' else 'dict',
+                            {t['name']: typed_map('dict' if kind == 'MappingProxyType' else kind, {})
+                             for t, kind in zip(case['tasks'], plan['sections'])}))
+    else:
+        env = Env()
+    config = Config()
+    for task in tasks:
+        env_up, status = task.do(env=env, config=config)
+        env.set_status(task, status)
+        env.apply(env_up)
+    sections = [(t['name'], env[t['name']]) for t in case['tasks']]
+    before = _snapshot(sections)
+    for task in [create, final]:
         env_up, status = task.do(env=env, config=config)
         env.set_status(task, status)
         env.apply(env_up)
     res = env[final.name]['result'][0]
     if isinstance(res, TestResultFailed):
         if 'TestStatsTestsByLabels' in str(res.msg) and 'not found in test labels' in str(res.msg):
-            return dict(raised=False, exc=str(res.msg), error=True, classify=[], success=False, rows=[], missing=0, oracles=[])
-        return dict(raised=True, exc=str(res.msg)[-300:], error=False, classify=[], success=False, rows=[], missing=0, oracles=[])
-    return project_twice(case, res)
+            obs = dict(raised=False, exc=str(res.msg), error=True, classify=[], success=False, rows=[], missing=0, oracles=[])
+        else:
+            obs = dict(raised=True, exc=str(res.msg)[-300:], error=False, classify=[], success=False, rows=[], missing=0, oracles=[])
+    else:
+        obs = project_twice(case, res)
+    obs['inputs_changed'] = snapshot_diff(before, _snapshot(sections))
+    obs['reeval'] = None
+    return obs
 
 
 observe_pipeline.counter = 0
@@ -402,6 +568,16 @@ def trace_key(case, obs, clauses):
 
 TWIN = 10 ** 6
 ALT = 5 * 10 ** 5        # id offset of the colliding-names variant of a random input
+CONT_OFF = 2 * 10 ** 5   # id offset of the container-type variant of a random input
+REEV = 5 * 10 ** 4       # id offset of the observation of the second evaluation (inputs changed by the first); sign: after reading
+
+
+def decode_id(tid):
+    """(number of the random input, variant suffix, projected after reading, second evaluation)"""
+    a = abs(tid)
+    variant = COLL if a >= ALT else CONT if a >= CONT_OFF else ''
+    a %= 10 ** 5
+    return a % REEV, variant, tid < 0, a >= REEV
 
 
 def corrupted_twins(batch):
@@ -446,13 +622,20 @@ def replay_case(case):
     batch = [to_trace_case(1, case, obs)]
     if obs.get('again') is not None:
         batch.append(to_trace_case(-1, case, obs['again']))
+    if obs.get('reeval') is not None:
+        batch.append(to_trace_case(2, case, obs['reeval']))
     _, bad = validate_batch(batch, wd, 'replay')
-    for cid, o, when in ((1, obs, 'right after the evaluation'), (-1, obs.get('again'), 'after the summary has been read')):
+    inputs = ('; inputs changed by evaluating / reading the summary: %s' % '; '.join(obs['inputs_changed']) if obs.get('inputs_changed')
+              else '; the keys / lengths of the inputs are unchanged')
+    if case.get('containers'):
+        inputs += '; inputs handed in as %s' % json.dumps(case['containers'], sort_keys=True)
+    for cid, o, when in ((1, obs, 'right after the evaluation'), (-1, obs.get('again'), 'after the summary has been read'),
+                         (2, obs.get('reeval'), 'on a second evaluation of the same test on the same inputs (the first one changed them)')):
         clauses = set(b[1] for b in bad if b[0] == cid)
         if clauses and trace_key(case, o, clauses) is not None:
-            return False, 'StatsTrace rejects the observation made %s, clauses %s; observed %r' % (when, sorted(clauses), _short(o))
-    return True, 'observation%s accepted by StatsTrace: %r' % (' (and the different one made after reading the summary)' if len(batch) > 1 else '',
-                                                               _short(obs))
+            return False, 'StatsTrace rejects the observation made %s, clauses %s; observed %r%s' % (when, sorted(clauses), _short(o), inputs)
+    return True, 'observation%s accepted by StatsTrace: %r%s' % (' (and the %d different one(s) made after reading the summary / on a second '
+                                                                 'evaluation)' % (len(batch) - 1) if len(batch) > 1 else '', _short(obs), inputs)
 
 
 def _short(obs):
@@ -557,11 +740,21 @@ def run_c18(ctx):
                "'_test_name' are reserved; label values are strings; selections are non-empty and repetition-free")
     ctx.assume('names inside a class and rows of the per-label summary are compared as bags / sets (their order is presentation); '
                'a requested label carried by no result is the documented TestStatsTestsByLabelsException (deviation = drift)')
+    ctx.rule('containers: every dumped state (direct and pipeline) and one random input in three is evaluated a third time with the environment '
+             'sections / the collection of sections / the result lists / the label dictionaries built from other concrete types with the same '
+             'content (36 assignments in rotation over defaultdict(list), defaultdict(dict), OrderedDict, a dict subclass with __missing__, '
+             'MappingProxyType, dict; tuple, list, a list subclass; through the pipeline an Env based on a dictionary with such sections); keys of '
+             'the mappings and lengths of the sequences handed in are snapshotted before the evaluation and after the reading, and when they '
+             'differ the same test is evaluated a second time on the same inputs and judged as well.')
+    ctx.assume('Stats.tla is about the content of the task environments, not their Python type: the output TLC computed for a state is the output '
+               'for the state built from any mapping / re-iterable sequence type with that content (only types the documented operations of the '
+               'unchanged implementation accept: no one-shot iterators, the documented inputs being lists); a summary that changes its inputs but '
+               'is right on the first and on a second evaluation is outside the statement (drift)')
     ctx.assume('Stats.tla compares names (labels, label values, test and task names) for equality only: the output TLC computed for a state is, '
                'with the names mapped injectively, the output for the state with the names mapped (the renamed variants of the dumped states are '
                'judged that way; those of the random inputs, and every replay, by TLC itself on the real names)')
     wd = tlc.workdir('c18')
-    n_eval = n_pipe = n_states = n_again = 0
+    n_eval = n_pipe = n_states = n_again = n_changed = 0
     seen_raised = {}
     drifted = {}
 
@@ -570,16 +763,22 @@ def run_c18(ctx):
         if drifted[cls] <= limit:
             ctx.drift(text)
 
+    variant_text = {'': '', COLL: 'with names that are keys / attribute names the implementation uses itself: ',
+                    CONT: 'with the task environments / result lists / label dictionaries handed in as other concrete types (see containers '
+                          'in the case): '}
+
     def judge_one(case, exp, how, fn, suffix='', already=()):
-        """Evaluate the case the `how` way and compare both projections with what TLC computed; returns the keys of the finding
-        classes seen.  A class listed in `already` (the same state on ordinary names) is not reported a second time."""
-        nonlocal n_eval, n_pipe, n_again
+        """Evaluate the case the `how` way and compare the projections with what TLC computed; returns the keys of the finding
+        classes seen.  A class listed in `already` (the same state on ordinary names / plain dicts and lists) is not reported a
+        second time."""
+        nonlocal n_eval, n_pipe, n_again, n_changed
         obs = fn(case)
         n_eval += 1
         n_pipe += how == 'pipeline'
         keys = []
-        pre = ('through the task pipeline: ' if how == 'pipeline' else '') + (
-            'with names that are keys / attribute names the implementation uses itself: ' if suffix else '')
+        pre = ('through the task pipeline: ' if how == 'pipeline' else '') + variant_text[suffix]
+        changed = ('; inputs changed by evaluating / reading the summary: ' + '; '.join(obs['inputs_changed'])) if obs.get('inputs_changed') else ''
+        n_changed += bool(changed)
         if lenient_error(case, exp, obs):
             drift_once('lenient' + suffix, '%s: label nobody carries did not raise the documented exception: %r' % (how, case))
             return keys
@@ -587,8 +786,9 @@ def run_c18(ctx):
         if diff:
             keys.append(diff[0])
             if diff[0] not in already:
-                ctx.violation(diff[0] + suffix, pre + diff[1], case, module=MODULE)
+                ctx.violation(diff[0] + suffix, pre + diff[1] + changed, case, module=MODULE)
         note_read_raised(ctx, case, obs, seen_raised)
+        diff2 = None
         if obs.get('again') is not None:
             # the summary no longer projects to what it projected right after the evaluation: judged by the same TLC output
             n_again += 1
@@ -597,7 +797,19 @@ def run_c18(ctx):
                 keys.append(diff2[0] + AFTER)
                 if diff2[0] + AFTER not in already:
                     ctx.violation(diff2[0] + suffix + AFTER, pre + 'after the summary has been read (bool, counts, table / plot '
-                                  'representations): ' + diff2[1], case, module=MODULE)
+                                  'representations): ' + diff2[1] + changed, case, module=MODULE)
+        if obs.get('reeval') is not None:
+            # the first evaluation changed its inputs and a second evaluation of the same test sees something else: same TLC output
+            diff3 = compare(case, exp, obs['reeval'])
+            if diff3 and diff3[0] not in (diff and diff[0], diff2 and diff2[0]):
+                keys.append(diff3[0] + REEVAL)
+                if diff3[0] + REEVAL not in already:
+                    ctx.violation(diff3[0] + suffix + REEVAL, pre + 'on a second evaluation of the same test on the same inputs: ' + diff3[1]
+                                  + changed, case, module=MODULE)
+        if changed and not keys:
+            # the classification is right both times: that the inputs are modified is outside the statement
+            drift_once('inputs-changed/' + CLASSES[case['kind']], '%s%s: the summary is as Stats.tla expects%s: %r'
+                       % (pre, CLASSES[case['kind']], changed, case), limit=1)
         return keys
 
     for name, consts in configs(ctx):
@@ -624,6 +836,8 @@ def run_c18(ctx):
                 # the same state with names that collide with keys the implementation uses itself (rotation over the renamings)
                 k = crc % N_RENAMINGS
                 judge_one(rename_case(case, k), rename_expected(case, exp, k), how, fn, COLL, found)
+                # the same state built from other concrete mapping / sequence types (rotation); TLC's output is about the content
+                judge_one(with_containers(case, crc // N_RENAMINGS), exp, how, fn, CONT, found)
             if _nontrivial(case, exp):
                 ctx.distinct((name, crc))
             if crc % 2999 == 1:
@@ -641,19 +855,32 @@ def run_c18(ctx):
     rng = ctx.rng
     n_random = ctx.pick(3000, 40000)
     batch, byid = [], {}
+    if n_random >= REEV:
+        raise tlc.MachineryError('id scheme of the random inputs: n_random must stay below %d' % REEV)
     for cid in range(1, n_random + 1):
         plain = random_case(rng)
-        # one input in three also with names that collide with keys the implementation uses itself: id cid + ALT
-        for tid, case in [(cid, plain)] + ([(cid + ALT, rename_case(plain, cid // 3))] if cid % 3 == 0 else []):
+        # one input in three also with names that collide with keys the implementation uses itself (id cid + ALT), another one in
+        # three also built from other concrete mapping / sequence types (id cid + CONT_OFF)
+        variants = [(cid, plain)]
+        if cid % 3 == 0:
+            variants.append((cid + ALT, rename_case(plain, cid // 3)))
+        elif cid % 3 == 1:
+            variants.append((cid + CONT_OFF, with_containers(plain, cid // 3)))
+        for tid, case in variants:
             obs = observe(case)
             byid[tid] = (case, obs)
             batch.append(to_trace_case(tid, case, obs))
             note_read_raised(ctx, case, obs, seen_raised)
+            n_changed += bool(obs['inputs_changed'])
             if obs.get('again') is not None:
                 # second, different projection of the same summary: the same input with id -tid
                 n_again += 1
                 byid[-tid] = (case, obs['again'])
                 batch.append(to_trace_case(-tid, case, obs['again']))
+            if obs.get('reeval') is not None:
+                # the inputs were changed and a second evaluation of the same test observes something else: id tid + REEV
+                byid[tid + REEV] = (case, obs['reeval'])
+                batch.append(to_trace_case(tid + REEV, case, obs['reeval']))
     rejected = 0
     # binding self-test: corrupted twins of recorded observations ride along in the first batch and must be rejected
     twins = corrupted_twins(batch)
@@ -675,31 +902,51 @@ def run_c18(ctx):
     def tkey(tid):
         return trace_key(byid[tid][0], byid[tid][1], clauses[tid]) if tid in clauses else None
 
-    for cid in sorted(clauses, key=lambda tid: (abs(tid) % ALT, abs(tid) >= ALT, tid < 0)):
+    offset = {'': 0, COLL: ALT, CONT: CONT_OFF}
+
+    def keys_of(num, variant):
+        """finding classes of the three observations (first, after reading, second evaluation) of one variant of one input"""
+        first = num + offset[variant]
+        return [tkey(first), tkey(-first), tkey(first + REEV)]
+
+    for cid in sorted(clauses, key=lambda tid: (decode_id(tid)[0], offset[decode_id(tid)[1]], decode_id(tid)[3], decode_id(tid)[2])):
         case, obs = byid[cid]
         key = tkey(cid)
+        num, variant, again, second = decode_id(cid)
         if key is None:
             drift_once('lenient-random', 'label nobody carries did not raise the documented exception: %r' % (case,))
             continue
-        variant, again = abs(cid) >= ALT, cid < 0
-        if again and tkey(-cid) == key:
-            continue                   # already reported for the projection made right after the evaluation
-        if variant and key in (tkey(abs(cid) - ALT), tkey(ALT - abs(cid))):
-            continue                   # the same class on the same input with ordinary names
+        own = keys_of(num, variant)
+        if (again and own[0] == key) or (second and key in own[:2]):
+            continue                   # already reported for the projection made right after the first evaluation / after reading
+        if variant and key in keys_of(num, ''):
+            continue                   # the same class on the same input with ordinary names / plain dicts and lists
         rejected += 1
-        ctx.violation(key + (COLL if variant else '') + (AFTER if again else ''),
-                      'StatsTrace rejects the observation%s%s, clauses %s; observed %r'
-                      % (' of the input with names that are keys / attribute names the implementation uses itself' if variant else '',
+        changed = byid[num + offset[variant]][1].get('inputs_changed')
+        ctx.violation(key + variant + (AFTER if again else '') + (REEVAL if second else ''),
+                      'StatsTrace rejects the observation%s%s%s, clauses %s; observed %r%s'
+                      % (' of the input ' + variant_text[variant].rstrip(': ') if variant else '',
                          ' made after the summary has been read (bool, counts, table / plot representations)' if again else '',
-                         sorted(clauses[cid]), _short(obs)), case, module=MODULE)
+                         ' made on a second evaluation of the same test on the same inputs' if second else '',
+                         sorted(clauses[cid]), _short(obs),
+                         '; inputs changed by evaluating / reading the summary: ' + '; '.join(changed) if changed else ''), case, module=MODULE)
+    # inputs changed although every observation is accepted: outside the statement
+    for tid in sorted(t for t in byid if t > 0 and decode_id(t)[3] is False):
+        num, variant, _, _ = decode_id(tid)
+        case, obs = byid[tid]
+        if obs.get('inputs_changed') and not any(keys_of(num, variant)):
+            drift_once('inputs-changed/' + CLASSES[case['kind']], '%s%s: the summary is accepted by StatsTrace; inputs changed by evaluating / '
+                       'reading the summary: %s: %r' % (variant_text[variant], CLASSES[case['kind']], '; '.join(obs['inputs_changed']), case), limit=1)
     ctx.count(evaluations=len(batch), traces=len(batch))
     for cid in [c for c in byid if c > 0][:2]:
         ctx.sample(dict(source='random', case=byid[cid][0], observed=_short(byid[cid][1])))
     ctx.cov['exhaustive'] = True
     ctx.cov['explanation'] = ('exhaustive for the TLC configurations listed in tlc_runs (%d evaluated states, %d of them also through '
                               'the task pipeline); random beyond them (%d inputs, %d rejected by TLC); every summary read again through its '
-                              'public read paths and projected a second time (%d second projections differed and were judged too)'
-                              % (n_states, n_pipe, n_random, rejected, n_again))
+                              'public read paths and projected a second time (%d second projections differed and were judged too); every '
+                              'dumped state and one random input in three also built from other concrete mapping / sequence types; keys / '
+                              'lengths of the inputs snapshotted before and after (%d evaluations changed them)'
+                              % (n_states, n_pipe, n_random, rejected, n_again, n_changed))
     if seen_raised:
         ctx.cov['explanation'] += ('; read paths that raised (rendering, outside C18, the summary is projected again all the same): %s'
                                    % ', '.join('%s x%d' % kv for kv in sorted(seen_raised.items())))
